@@ -784,6 +784,9 @@ func unop(i *interpreter, instr *ssa.UnOp, x value) value {
 			return -x
 		}
 	case token.MUL:
+		if sp, ok := x.(symPtr); ok {
+			return i.p.loadSymPtr(sp)
+		}
 		return load(mustDeref(instr.X.Type()), x.(*value))
 	case token.NOT:
 		return !x.(bool)
